@@ -741,9 +741,24 @@ type halfPipe struct {
 	eof     bool // writer closed
 	rclosed bool // reader closed
 	wake    chan struct{}
+	// window > 0: at most this many unread bytes are in flight; Write blocks (and honours the
+	// write deadline) until the reader has taken bytes out, as TCP flow control does
+	window   int
+	buffered int
+	space    chan struct{}
 }
 
-func newHalfPipe() *halfPipe { return &halfPipe{wake: make(chan struct{}, 1)} }
+func newHalfPipe() *halfPipe {
+	return &halfPipe{wake: make(chan struct{}, 1), space: make(chan struct{}, 1)}
+}
+
+func (h *halfPipe) freed(n int) { // h.mu held
+	h.buffered -= n
+	select {
+	case h.space <- struct{}{}:
+	default:
+	}
+}
 
 func (h *halfPipe) signal() {
 	select {
@@ -771,6 +786,7 @@ type Conn struct {
 	ClosedAt   time.Time
 	forced     bool
 	rdl        time.Time
+	wdl        time.Time
 	// Segment, when set, splits each Write into the chunks the reader will see one per Read.
 	Segment func(b []byte) [][]byte
 	// Received accumulates everything this end has read (harness-side ends use ReadAvailable).
@@ -829,6 +845,7 @@ func (c *Conn) Read(b []byte) (int, error) {
 			} else {
 				h.chunks = h.chunks[1:]
 			}
+			h.freed(n)
 			h.mu.Unlock()
 
 			return n, nil
@@ -869,8 +886,17 @@ func (c *Conn) ReadAvailable() (data []byte, eof bool) {
 		data = append(data, ch...)
 	}
 	h.chunks = nil
+	h.freed(len(data))
 
 	return data, h.eof
+}
+
+// SetRecvWindow bounds the bytes in flight towards this end (0 = unbounded): the other end's
+// Write blocks while that many bytes are unread here.
+func (c *Conn) SetRecvWindow(n int) {
+	c.rd.mu.Lock()
+	c.rd.window = n
+	c.rd.mu.Unlock()
 }
 
 // Write implements net.Conn.
@@ -896,7 +922,13 @@ func (c *Conn) Write(b []byte) (int, error) {
 
 		return 0, &net.OpError{Op: "write", Net: "tcp", Addr: c.remote, Err: os.NewSyscallError("write", syscall.EPIPE)}
 	}
+	if h.window > 0 {
+		h.mu.Unlock()
+
+		return c.writeWindowed(b)
+	}
 	if len(b) > 0 {
+		h.buffered += len(b)
 		if seg != nil {
 			for _, ch := range seg(b) {
 				if len(ch) > 0 {
@@ -912,6 +944,60 @@ func (c *Conn) Write(b []byte) (int, error) {
 	c.net.logStream(StreamEvent{Time: time.Now(), Conn: c.ID, Kind: "write", Data: append([]byte{}, b...)})
 
 	return len(b), nil
+}
+
+// writeWindowed is Write under flow control: bytes enter the pipe as the reader makes room; a
+// write deadline that expires in between leaves the bytes already taken in the stream and
+// reports the rest as not written - like a kernel socket.
+func (c *Conn) writeWindowed(b []byte) (int, error) {
+	h := c.wr
+	written := 0
+	for written < len(b) {
+		c.mu.Lock()
+		closed, dl := c.closed, c.wdl
+		c.mu.Unlock()
+		if closed {
+			return written, closedErr("write", c.local)
+		}
+		h.mu.Lock()
+		if h.rclosed || h.eof {
+			h.mu.Unlock()
+
+			return written, &net.OpError{Op: "write", Net: "tcp", Addr: c.remote, Err: os.NewSyscallError("write", syscall.EPIPE)}
+		}
+		if room := h.window - h.buffered; room > 0 {
+			k := min(room, len(b)-written)
+			h.chunks = append(h.chunks, append([]byte{}, b[written:written+k]...))
+			h.buffered += k
+			written += k
+			h.mu.Unlock()
+			h.signal()
+
+			continue
+		}
+		h.mu.Unlock()
+		var timerC <-chan time.Time
+		var timer *time.Timer
+		if !dl.IsZero() {
+			d := time.Until(dl)
+			if d <= 0 {
+				return written, timeoutErr("write", c.local)
+			}
+			timer = time.NewTimer(d)
+			timerC = timer.C
+		}
+		select {
+		case <-h.space:
+		case <-c.closedCh:
+		case <-timerC:
+		}
+		if timer != nil {
+			timer.Stop()
+		}
+	}
+	c.net.logStream(StreamEvent{Time: time.Now(), Conn: c.ID, Kind: "write", Data: append([]byte{}, b...)})
+
+	return written, nil
 }
 
 func (c *Conn) shutdown(forced bool) bool {
@@ -980,7 +1066,11 @@ func (c *Conn) LocalAddr() net.Addr { return &net.TCPAddr{IP: c.local.IP, Port: 
 func (c *Conn) RemoteAddr() net.Addr { return &net.TCPAddr{IP: c.remote.IP, Port: c.remote.Port} }
 
 // SetDeadline implements net.Conn.
-func (c *Conn) SetDeadline(t time.Time) error { return c.SetReadDeadline(t) }
+func (c *Conn) SetDeadline(t time.Time) error {
+	_ = c.SetWriteDeadline(t)
+
+	return c.SetReadDeadline(t)
+}
 
 // SetReadDeadline implements net.Conn.
 func (c *Conn) SetReadDeadline(t time.Time) error {
@@ -993,7 +1083,18 @@ func (c *Conn) SetReadDeadline(t time.Time) error {
 }
 
 // SetWriteDeadline implements net.Conn.
-func (c *Conn) SetWriteDeadline(time.Time) error { return nil }
+func (c *Conn) SetWriteDeadline(t time.Time) error {
+	c.mu.Lock()
+	c.wdl = t
+	c.mu.Unlock()
+	// wake a writer that waits for room so that it re-reads the deadline
+	select {
+	case c.wr.space <- struct{}{}:
+	default:
+	}
+
+	return nil
+}
 
 // ReadFrom implements transport.TCPConn.
 func (c *Conn) ReadFrom(r io.Reader) (int64, error) {
@@ -1265,7 +1366,9 @@ func (l *Listener) forceClose() {
 }
 
 // Addr implements net.Listener.
-func (l *Listener) Addr() net.Addr { return &net.TCPAddr{IP: append(net.IP{}, l.addr.IP...), Port: l.addr.Port} }
+func (l *Listener) Addr() net.Addr {
+	return &net.TCPAddr{IP: append(net.IP{}, l.addr.IP...), Port: l.addr.Port}
+}
 
 // TCPAddr returns the bound address.
 func (l *Listener) TCPAddr() *net.TCPAddr { return l.addr }
